@@ -1,9 +1,10 @@
 """C05 — problem text is parsed faithfully and ill-formed facts are rejected.
 
 Generated problems over generated domains (typed / grouped / untyped / :private object lists, subtypes, constants,
-repeated arguments, zero-arity atoms, integer / decimal / negative / exponent numerals, numeric goals), every
-single-point corruption of each valid problem, and the problem files shipped under <repo>/tests (each against its
-domain).  The implementation's dump of the parsed Problem (or 'raised') is compared inside Coq with the model
+repeated arguments, zero-arity atoms, integer / decimal / negative / exponent numerals, numeric goals; names with '-'
+and '_' that share prefixes), every single-point corruption of each valid problem - by an unrelated name and by a
+near miss of every name the parser compares or looks up -, case variants (accepted), and the problem files shipped
+under <repo>/tests (each against its domain).  The implementation's dump of the parsed Problem (or 'raised') is compared inside Coq with the model
 (Model/Problem.v) and judged by the spec (Spec/Problem.v) and by the generator's a-priori expectation."""
 import json
 import random
@@ -638,6 +639,7 @@ def near_miss_cases(rng, w, desc, n_domain, n_other, n_positive, covered):
 
     def take(pool, keys, n):
         out = []
+        keys = [k for k in keys if pool[k]]
         while keys and n > 0:
             keys.sort(key=lambda k: (covered.get(k, 0), rng.random()))
             k = keys[0]
@@ -647,7 +649,9 @@ def near_miss_cases(rng, w, desc, n_domain, n_other, n_positive, covered):
             if not pool[k]:
                 keys.remove(k)
         return out
+    # separators exchanged ('-' <-> '_') is the most plausible tolerance: two such variants at the other sites first
     return (take(neg, [k for k in neg if k[0] == "domain"], n_domain)
+            + take(neg, [k for k in neg if k[0] != "domain" and k[1].startswith("separator-swapped")], 2)
             + take(neg, [k for k in neg if k[0] != "domain"], n_other)
             + take(pos, list(pos), n_positive))
 
@@ -685,7 +689,7 @@ def build_generated(rng, tier):
                 ctext = G.render(problem_tree(cd), rng, noise=False)
                 cases.append({"text": ctext, "expect": "raised", "kind": "corrupt-" + kind, "klass": klass,
                               "nontrivial": True, "desc": cd})
-            n_dom, n_other, n_pos = (3, 7, 2) if tier == "quick" else (99, 24, 4)
+            n_dom, n_other, n_pos = (3, 7, 2) if tier == "quick" else (5, 10, 2)
             for kind, cd, expect, klass in near_miss_cases(rng, w, desc, n_dom, n_other, n_pos, covered):
                 ctext = G.render(problem_tree(cd), rng, noise=False)
                 cases.append({"text": ctext, "expect": expected_dump(desc) if expect == "same" else expect, "kind": kind,
@@ -1019,13 +1023,28 @@ def run(args):
     cov["exhaustive"] = False
     cov["rule"] = ("problems generated over pddlgen domains widened with binary/ternary functions (object list typed one by one / "
                    "grouped / trailing untyped / (:private ...) / mixed; arguments from objects of subtypes and domain constants; "
-                   "repeated arguments; zero-arity atoms; numerals int/decimal/negative/exponent/.5/5./+4; numeric goals of depth <= 2), "
-                   "EVERY single-point corruption of each D07-free valid problem (domain name, object type, and per init fact / fluent / "
-                   "goal literal / goal fluent: name, arity+1, arity-1, undeclared object, ill-typed object, non-numeral value; sub-sampled "
-                   "to 14 per problem in the quick tier), the type-check boundary (one object per type and the constants, single-item problems "
+                   "repeated arguments; zero-arity atoms; numerals int/decimal/negative/exponent/.5/5./+4; numeric goals of depth <= 2; "
+                   "pairs of numeric goals over one expression whose constants agree up to the 4th decimal / differ by 1e-8 / are two "
+                   "spellings of one value / are identical). Every second domain has type / constant / predicate / function / object "
+                   "names that contain '-' and '_' and share prefixes (loc-a, loc_a, loca, loc-a-b, loc_a-b ...) and a domain name with "
+                   "separators (a-b_c, fuel_transport ...). EVERY single-point corruption of each D07-free valid problem by an UNRELATED "
+                   "name (domain name, object type, and per init fact / fluent / goal literal / goal fluent: name, arity+1, arity-1, "
+                   "undeclared object, ill-typed object, non-numeral value; sub-sampled to 14 per problem in the quick tier) and by a NEAR "
+                   "MISS of every name the parser compares or looks up (sites: domain name, object type, fact / fluent / goal-literal / "
+                   "goal-fluent name and each of their arguments; variations: separator swapped at one place / everywhere, dropped, "
+                   "doubled, inserted, prefix, prefix up to a separator, first part dropped, one-letter and one-part extension, doubled "
+                   "and dropped character, leading and trailing separator): a near miss that is not declared must be rejected, one that "
+                   "is another declared name is judged by the spec, a spelling in another letter case must be accepted with the same "
+                   "result (the tokenizer lower-cases); sampled per problem - quick: 3 domain-name + 2 separator-swap + 7 other + 2 case "
+                   "variants, thorough 5 + 2 + 10 + 2 - always the (site, variation) pairs the run has covered least. "
+                   "The type-check boundary (one object per type and the constants, single-item problems "
                    "over every argument tuple of every predicate / function, sampled to 10 (quick) / 40 (thorough) per domain; accepted iff "
-                   "every argument conforms), hand-written deviation witnesses, shipped problem files each against its domain "
-                   "(quick: files <= 2100 bytes). Non-trivial: >= 2 init/goal items or any corruption; distinct by input hash.")
+                   "every argument conforms), hand-written deviation witnesses, a three-problem sequence against one Domain object (plain, "
+                   "a fluent with a repeated argument between other fluents, plain again), shipped problem files each against its domain "
+                   "(quick: files <= 2100 bytes). Every fluent of every problem and every fluent leaf of a numeric goal is dumped through "
+                   "state_representation (signature + repeating_variables); all problems of a domain are parsed in one process against one "
+                   "Domain object, whose functions must present themselves the same way afterwards. "
+                   "Non-trivial: >= 2 init/goal items or any corruption; distinct by input hash.")
     cov["samples"] = [{"kind": c["input"]["world"]["cases"][0]["kind"],
                        "text": (c["input"]["world"]["cases"][0].get("text") or c["input"]["world"]["cases"][0].get("path"))[:400]}
                       for c in (cases[:2] + cases[len(cases) // 2:len(cases) // 2 + 2] + cases[-1:])]
